@@ -89,6 +89,7 @@ type pathCtx struct {
 	imprecise int
 	fd      *fdState
 	fdFrom  *fdState // snapshot at the branch point (valid once the prefix is consumed)
+	setup   bool     // concrete setup phase: no forking
 }
 
 func newPathCtx(i *interpreter, it WorkItem, budget int64) *pathCtx {
